@@ -24,16 +24,17 @@ import common  # noqa: E402
 
 PROP = "C16"
 
-# TODO-known: genuine defects of the unchanged tree found by this check, keyed by failure signature, kept here
-# until the lead moves them to /verif/known_findings.json (then they are matched by common.Verdict as well).
-# signature = branch (file kind . campaign . record type . field) | kind | detail (xor mask / where / reader)
+# Known findings live in /verif/known_findings.json (matched by common.Verdict: C16-F01 record type outside the
+# CRC, C16-F02 stale .tmp reused after a crash inside cut()).  TODO-known: findings not yet moved there by the
+# lead; same signature format (branch | kind | detail, regexes).  Empty when everything has been moved.
 TODO_KNOWN = [
-    {"id": "C16-F01",
-     "signature": {"branch": r"wal\.corrupt\.(entry|state)\.type\.val", "kind": r"corrupt-accepted", "detail": r"xor01/.*"},
-     "what": "WAL record type lies outside the CRC: flipping bit 0 of the type byte turns an entry record into a "
-             "state record (or back) and ReadAll/Verify accept it - an entry silently disappears and a bogus hard "
-             "state {Term:entry.Type, Vote:entry.Term, Commit:entry.Index} is returned, or a hard state is returned "
-             "as an entry (wal/decoder.go:108-117 validates rec.Data only)"},
+    {"id": "C16-F03",
+     "signature": {"branch": r"wal\.recover\.read-at-snap", "kind": r"stale-superseded-entry", "detail": r"stale-superseded-entry"},
+     "what": "ReadAll opened at a snapshot ignores entry records at or below the snapshot index altogether "
+             "(wal.go:460 `if e.Index > w.start.Index`), so when a new term overwrote the uncommitted tail starting "
+             "at or below that index (and the snapshot was taken afterwards) the superseded entries ABOVE the "
+             "snapshot index are returned although ReadAll promises to suppress overridden entries: the log handed "
+             "to raft has a lower term after the snapshot's term"},
 ]
 
 
@@ -180,7 +181,7 @@ class Campaign:
         self.sigcounts = collections.Counter()
         self.n = 0
 
-    def launch(self, cmd, args, nshard, tag):
+    def launch(self, cmd, args, nshard, tag, traceout=False):
         procs = []
         for s in range(nshard):
             self.n += 1
@@ -188,6 +189,8 @@ class Campaign:
             work = os.path.join(self.root, "work-%s-%d" % (tag, s))
             a = [self.binary, cmd, "-out", out, "-work", work, "-seed", str(self.seed),
                  "-shard", str(s), "-nshard", str(nshard)] + args
+            if traceout:
+                a += ["-traceout", os.path.join(self.root, "trace-%s-%d.ndjson" % (tag, s))]
             p = subprocess.Popen(a, stdout=subprocess.PIPE, stderr=subprocess.STDOUT, text=True,
                                  preexec_fn=limit_child, env=common.env())
             procs.append((p, a, out, work, cmd, tag, s))
@@ -252,6 +255,72 @@ class Campaign:
                               "detail": "the process running the real readers died (rc=%s) in case %s: %s" % (p.returncode, last, tailtxt[-600:]),
                               "sig": cmd + "/fatal", "scenario": {"cmd": a + ["-trace"], "case": last}})
         self._read(out, cmd)
+
+
+def trace_validate(root, quick, C):
+    """Concatenate the ndjson traces, add two deliberately corrupted copies of an accepted line (vacuity
+    test of DESIGN section 4 item 2: TLC must reject both), run TLC on TraceWal.tla."""
+    limit = 6000 if quick else 60000
+    lines = []
+    for p in sorted(glob.glob(os.path.join(root, "trace-rnd-*.ndjson"))):
+        with open(p) as f:
+            for line in f:
+                if len(lines) < limit:
+                    lines.append(line)
+        os.remove(p)
+    if not lines:
+        common.die_infra("B2: the random campaign recorded no trace")
+    planted = 0
+    for line in lines:
+        d = json.loads(line)
+        if d["kind"] == "crash" and d["ok"] and len(d["ents"]) >= 1 and d["durable"] >= 1:
+            a = json.loads(line)
+            a["id"] = "VACUITY-altered-entry"
+            a["ents"][-1]["s"] = (a["ents"][-1]["s"] + 1) % (1 << 30)
+            b = json.loads(line)
+            b["id"] = "VACUITY-lost-synced"
+            b["ents"] = []
+            b["hs"] = [0, 0, 0]
+            b["durable"] = len(b["hist"])
+            lines += [json.dumps(a) + "\n", json.dumps(b) + "\n"]
+            planted = 2
+            break
+    wd = os.path.join(root, "tlc-trace")
+    os.makedirs(wd)
+    for f in ("TraceWal.tla", "TraceWal.cfg"):
+        shutil.copy(os.path.join(common.SPEC, f), wd)
+    tp = os.path.join(wd, "trace.ndjson")
+    open(tp, "w").writelines(lines)
+    cmd = ["java", "-Xmx4g", "-Xss64m", "-XX:+UseParallelGC", "-cp", common.TLA_CP, "tlc2.TLC", "-workers", "1",
+           "-metadir", os.path.join(wd, "meta"), "-noGenerateSpecTE", "-deadlock", "-config", "TraceWal.cfg", "TraceWal.tla"]
+    t0 = time.time()
+    try:
+        p = subprocess.run(cmd, cwd=wd, env=common.env({"TRACE": tp}), stdout=subprocess.PIPE, stderr=subprocess.STDOUT,
+                           text=True, timeout=60 if quick else 600, errors="replace")
+    except subprocess.TimeoutExpired:
+        common.die_infra("B2: TLC timed out on TraceWal")
+    rej = re.findall(r'"REJECT ([^"]+)"', p.stdout)
+    m = None
+    for m in common._RE_STATES.finditer(p.stdout):
+        pass
+    if p.returncode != 0 or not m or int(m.group(2)) != len(lines) + 1:
+        common.die_infra("B2: TLC did not consume the whole trace (rc=%s):\n%s" % (p.returncode, p.stdout[-2000:]))
+    vac = [r for r in rej if r.startswith("VACUITY-")]
+    if len(set(vac)) != planted:
+        common.die_infra("B2 vacuity test: planted %d corrupted trace lines, TraceWal rejected %s" % (planted, vac))
+    real = [r for r in rej if not r.startswith("VACUITY-")]
+    by_id = {}
+    if real:
+        for line in lines:
+            d = json.loads(line)
+            if d["id"] in real:
+                by_id[d["id"]] = d
+    for r in real:
+        C.findings.append({"id": r, "class": "violation", "kind": "trace-rejected", "campaign": "random",
+                           "detail": "TraceWal.tla rejects the recorded reader call %s (contract RecoveredIsPrefix / "
+                                     "TornTailRepairable evaluated by TLC)" % r,
+                           "sig": "b2-" + r.split("/")[-1] + "/trace-rejected", "scenario": by_id.get(r)})
+    return {"events": len(lines) - planted, "rejected": len(real), "planted_rejected": len(set(vac)), "wall_s": round(time.time() - t0, 1)}
 
 
 def sig_of(f):
@@ -322,7 +391,8 @@ def main():
     C = Campaign(binary, root, seed)
     nsh = max(2, min(8, cores // 2))
     pr = []
-    pr += C.launch("random", ["-n", str(1500 if quick else 40000)], nsh if not quick else 4, "rnd")
+    nrnd_sh = nsh if not quick else 4
+    pr += C.launch("random", ["-n", str(1500 if quick else 40000)], nrnd_sh, "rnd", traceout=True)
     pr += C.launch("snap", ["-n", str(6 if quick else 30)], 2 if quick else nsh, "snap")
     pr += C.launch("snapreplay", ["-in", snapscen], 1, "snapr")
     pr += C.launch("corrupt", ["-n", str(5 if quick else 40)] + ([] if quick else ["-full"]), nsh, "cor")
@@ -356,6 +426,9 @@ def main():
     model["snap"] = {"distinct_states": sres.distinct, "generated": sres.generated, "scenarios": nsnap}
 
     C.collect(pr, 75 if quick else 800)
+
+    # ---- binding B2: the recorded reader calls of the random campaign are judged by TraceWal.tla
+    b2 = trace_validate(root, quick, C)
 
     # ---- verdict
     divergences = collections.Counter()
@@ -410,7 +483,7 @@ def main():
                     + C.samples["snapreplay"][:1]) or ["none"],
         "states": int(states),
         "transitions": int(transitions),
-        "traces_validated_against_impl": int(st["replay"]["cases"] + st["snapreplay"]["cases"]),
+        "traces_validated_against_impl": int(st["replay"]["cases"] + st["snapreplay"]["cases"] + b2["events"]),
         "model_instances": model,
         "tlc_scenarios": int(total_scen),
         "tlc_scenarios_with_lost_sectors": int(nontrivial_tlc),
@@ -423,6 +496,7 @@ def main():
         "snapshot_sets": int(st["snap"]["cases"]),
         "snapshot_loads": int(st["snap"]["reads"]),
         "snap_model_scenarios": int(st["snapreplay"]["cases"]),
+        "b2_trace_validation": b2,
         "labels": labels,
         "divergences": int(ndiv),
         "divergence_signatures": dict(divergences),
